@@ -36,6 +36,10 @@ def run_job(job):
             strategy = sched_rng.choice(STRATEGIES)
             pseed = sched_rng.getrandbits(48)
             fpg = sched_rng.choice([None, 1, 2])
+            # Bound the number of input groups (each is 16 bucket hand-offs): several MiB of strings
+            # cut into 256-byte groups is millions of scheduler steps, close to the step budget.
+            while total / min_group > 4000 and min_group < 140000:
+                min_group = {256: 512, 512: 1024, 1024: 4096, 4096: 16384, 16384: 140000}[min_group]
             if only is not None and s != only:
                 continue
             plan = Plan(pseed, strategy, log_level=1)
